@@ -14,6 +14,7 @@ STD_ENUMS = {
     'Cow': ['Borrowed', 'Owned'],
     'Bound': ['Included', 'Excluded', 'Unbounded'],
     'Value': ['Null', 'Bool', 'Number', 'String', 'Array', 'Object'],
+    'Item': ['Literal', 'OwnedLiteral', 'Space', 'OwnedSpace', 'Numeric', 'Fixed', 'Error'],
 }
 ORDERING = {'Less': -1, 'Equal': 0, 'Greater': 1}
 
